@@ -163,7 +163,7 @@ class Session:
                                                          cipher_suite["Mode"][1], cipher_suite["MAC"])
                 elif secret.label == "RSA":
                     master_secret = key_derivator.gen_master_secret_tls_12(bytes.fromhex(secret.value), client_random,
-                                                                           server_random)
+                                                                           server_random, cipher_suite["MAC"])
                     keys = key_derivator.dev_tls_12_keys(master_secret, client_random, server_random, key_length,
                                                          mac_length, 2 * key_length + 2 * mac_length,
                                                          cipher_suite["CryptoAlgo"][0],
